@@ -8,13 +8,14 @@ from .. import verdicts as V
 from ..harness import Cfg, Obs, run_engine
 from ..jobs import Job, register
 from ..refsem import RefResult
-from .common import doc, engine_harness
+from .common import auto_parts, doc, engine_harness
 
 
-def verdict(obs: Obs, ref: RefResult, sym: Any) -> Optional[str]:
-    lab = V.outcome(obs, ref)
-    if lab:
-        return lab
+def verdict(obs: Obs, ref: RefResult, sym: Any, use_ref: bool = True) -> Optional[str]:
+    if use_ref:
+        lab = V.outcome(obs, ref)
+        if lab:
+            return lab
     if V.hang(obs):
         return None
     # schedule independence, differentially: same behaviour under the canonical schedule (durations 0)
@@ -55,7 +56,6 @@ QUICK = [
     ("rec_simple", lambda: C.rec_simple(2, False, True), ("reiterated", "ref_fail_rec")),
     ("rec_simple_default", lambda: C.rec_simple(1, True), ("reiterated", "default_used")),
     ("rec_inner_start", C.rec_inner_start, ("reiterated",)),
-    ("rec_outside_reader", C.rec_outside_reader, ("reiterated",)),
     ("rec_with_switch", lambda: C.rec_with_switch(1), ("reiterated",)),
     ("rec_with_oneof", C.rec_with_oneof, ("reiterated",)),
     ("rec_in_oneof", C.rec_in_oneof, ("reiterated",)),
@@ -64,6 +64,22 @@ QUICK = [
     ("retry_chain", C.retry_chain, ("default_used",)),
 ]
 
+# Readers OUTSIDE a recurrent subgraph: the documentation does not say which iteration's value they see, so the
+# reference comparison is not asserted for these templates (interpretation question, DESIGN §2 C01); what C01 does
+# state - the outcome is the same under every schedule - is asserted differentially.
+def verdict_differential_only(obs: Obs, ref: RefResult, sym: Any) -> Optional[str]:
+    return verdict(obs, ref, sym, use_ref=False)
+
+
+for name, f, goals in [("rec_outside_reader", C.rec_outside_reader, ("reiterated",)),
+                       ("rec_outside_reader_slow", C.rec_outside_reader_slow, ("reiterated",)),
+                       ("rec_two_scopes", C.rec_two_scopes, ("reiterated",))]:
+    register(Job("C01", name, engine_harness(f, verdict_differential_only,
+                                             beh_kw={"dur_nodes": {"S", "M", "D", "Q3", "R", "W", "X", "Y"}}),
+                 tier="quick", budget_s=300,
+                 goals=tuple(goals), parts=auto_parts(f()), doc=doc(name, SYMS, {"oracle": "differential vs canonical schedule only"})))
+
 for name, f, goals in QUICK:
     register(Job("C01", name, engine_harness(f, verdict), tier="quick", budget_s=300, goals=tuple(goals),
+                 parts=auto_parts(f()),
                  doc=doc(name, SYMS)))
